@@ -10,11 +10,12 @@
      - a second free of a buffer / bus emits nothing and ids return to the allocator (FreeLaws). *)
 EXTENDS ServerCmd
 CONSTANTS Client, MaxObj, MaxCalls, ActNames, NShapes, Wide,
+          BindFocus, \* TRUE: only a handful of calls, so that blocks with syncs and raise points get 6+ calls deep
           Trace      \* TRUE: print <<"ACT", action>> for every transition (vacuity guard; TLC's -coverage cannot cope with this module)
-VARIABLES st, wire, held, mark, ok, calls, last
-vars == <<st, wire, held, mark, ok, calls, last>>
+VARIABLES st, wire, held, mark, ok, calls, last, issued
+vars == <<st, wire, held, mark, ok, calls, last, issued>>
 
-Cfg0 == [client |-> Client, logins |-> 2, nbuf |-> 6, ncb |-> 4, nab |-> 8, io |-> 4, initnode |-> 1000,
+Cfg0 == [client |-> Client, logins |-> 2, nbuf |-> 6, ncb |-> 4, nab |-> 8, io |-> 4, initnode |-> 1000, rt |-> 1,
          latency |-> 200, defgroup |-> (IF Client = 0 THEN 1 ELSE 33554432), groups |-> <<1, 33554432>>]
 E(o, h, tk, t, act, a, n, cm, ids) ==
     [op |-> o, h |-> h, tk |-> tk, t |-> t, act |-> act, def |-> "d", a |-> a, n |-> n, cm |-> cm, ids |-> ids,
@@ -36,7 +37,7 @@ ArgSet == {Shapes[k] : k \in 1 .. NShapes}
 Targets == {<<"none", 0>>, <<"server", 0>>} \cup {<<"obj", h>> : h \in Handles({"synth", "group"})}
 NextNode == Cfg0.initnode + Len(st.recent) + Client * RealM
 
-Init == st = InitState(Cfg0) /\ wire = <<>> /\ held = <<>> /\ mark = <<>> /\ ok = "ok" /\ calls = 0 /\ last = "init"
+Init == st = InitState(Cfg0) /\ wire = <<>> /\ held = <<>> /\ mark = <<>> /\ ok = "ok" /\ calls = 0 /\ last = "init" /\ issued = <<>>
 Do(e0) ==
     LET x == Step(st, e0)
         e == [e0 EXCEPT !.em = x.em, !.exc = x.exc]
@@ -44,8 +45,14 @@ Do(e0) ==
     /\ calls < MaxCalls /\ Len(st.obj) <= MaxObj
     /\ ok' = Why(st, e)
     /\ st' = x.st /\ wire' = wire \o x.em /\ calls' = calls + 1 /\ last' = e0.op
-    /\ held' = IF e0.op = "bind_enter" THEN <<>> ELSE IF st.inbind /\ e0.op # "bind_exit" THEN held \o MsgsOf(solo.em) ELSE held
-    /\ mark' = IF e0.op = "bind_enter" THEN wire ELSE mark
+    /\ held' = IF e0.op \in {"bind_enter", "sync"} THEN <<>>
+               ELSE IF st.inbind /\ e0.op # "bind_exit" THEN held \o MsgsOf(solo.em) ELSE held
+    /\ mark' = IF e0.op = "bind_enter" THEN wire ELSE IF e0.op = "sync" THEN wire \o x.em ELSE mark
+    \* independent bookkeeping of what must have reached the server so far (the '/sync' markers aside)
+    /\ issued' = IF e0.op \in {"bind_enter", "sync"} THEN (IF st.inbind THEN issued \o held ELSE issued)
+                 ELSE IF e0.op = "bind_exit" THEN (IF e0.n[1] = 1 THEN issued ELSE issued \o held)
+                 ELSE IF st.inbind THEN issued
+                 ELSE issued \o MsgsOf(solo.em)
 
 NewSynth == \/ \E tg \in Targets, act \in ActNames :
                  Do(E("synth", 0, tg[1], tg[2], act, Shapes[1], <<>>, "none", <<NextNode>>))
@@ -99,11 +106,12 @@ BusCmd == \E h \in Handles({"cbus"}) :
     \/ Do(E("c_setn", h, "none", 0, "", IF st.obj[h].n = 1 THEN <<TF(4)>> ELSE <<TF(4), TI(1)>>, <<>>, "none", <<>>))
     \/ Do(E("c_fill", h, "none", 0, "", <<TF(4)>>, <<1>>, "none", <<>>))
     \/ Do(E("c_get", h, "none", 0, "", <<>>, <<>>, "none", <<>>))
+Sync == Do(E("sync", 0, "none", 0, "", <<>>, <<>>, "none", <<900 + calls>>))
 BindEnter == ~st.inbind /\ Do(E("bind_enter", 0, "none", 0, "", <<>>, <<>>, "none", <<>>))
 BindExit == st.inbind /\ Do(E("bind_exit", 0, "none", 0, "", <<>>, <<0>>, "none", <<>>))
 BindRaise == st.inbind /\ Do(E("bind_exit", 0, "none", 0, "", <<>>, <<1>>, "none", <<>>))
 Mark(n) == IF Trace THEN PrintT(<<"ACT", n>>) ELSE TRUE
-Next == (NewSynth /\ Mark("NewSynth"))
+NextAll == (NewSynth /\ Mark("NewSynth"))
         \/ (Replace /\ Mark("Replace"))
         \/ (NewGroup /\ Mark("NewGroup"))
         \/ (NodeCmd /\ Mark("NodeCmd"))
@@ -116,9 +124,19 @@ Next == (NewSynth /\ Mark("NewSynth"))
         \/ (NewBus /\ Mark("NewBus"))
         \/ (FreeBus /\ Mark("FreeBus"))
         \/ (BusCmd /\ Mark("BusCmd"))
+        \/ (Sync /\ Mark("Sync"))
         \/ (BindEnter /\ Mark("BindEnter"))
         \/ (BindExit /\ Mark("BindExit"))
         \/ (BindRaise /\ Mark("BindRaise"))
+NextBind == \/ (Do(E("group", 0, "server", 0, "addToTail", <<>>, <<0>>, "none", <<NextNode>>)) /\ Mark("NewGroup"))
+            \/ (\E h \in Handles({"group"}) : Do(E("run", h, "none", 0, "", <<>>, <<0>>, "none", <<>>)) /\ Mark("NodeCmd"))
+            \/ (FreeNode /\ Mark("FreeNode"))
+            \/ (\E a \in Lowest(A!Legal(st.buf, BufPart(Cfg0), 1)) :
+                   a # A!NONE /\ Do(E("buffer", 0, "none", 0, "", <<>>, <<8, 1>>, "func", <<a>>)) /\ Mark("NewBuffer"))
+            \/ (\E h \in Handles({"buf"}) : Do(E("b_free", h, "none", 0, "", <<>>, <<>>, "none", <<>>)) /\ Mark("FreeBuffer"))
+            \/ (Sync /\ Mark("Sync")) \/ (BindEnter /\ Mark("BindEnter")) \/ (BindExit /\ Mark("BindExit"))
+            \/ (BindRaise /\ Mark("BindRaise"))
+Next == IF BindFocus THEN NextBind ELSE NextAll
 Spec == Init /\ [][Next]_vars
 Bound == Len(st.obj) <= MaxObj /\ calls <= MaxCalls
 
@@ -129,6 +147,12 @@ BindAtomic ==
     /\ (last = "bind_exit" /\ ~st.inbind) =>
           \/ wire = mark                                       \* raised, or nothing was issued
           \/ wire = Append(mark, Ev("bundle", Cfg0.latency, held))
+\* every command exactly once, in issue order, whatever the syncs and exceptions: the wire without its '/sync'
+\* markers is the sequence of commands that had to reach the server
+ExactlyOnceInOrder == SelectSeq(MsgsOf(wire), LAMBDA m : m.a # "/sync") = issued
+\* a '/sync' never overtakes a command issued before it
+SyncAfterEarlier == \A k \in 1 .. Len(wire) :
+    (wire[k].m # <<>> /\ wire[k].m[1].a = "/sync") => Len(wire[k].m) = 1
 \* ids of live buffers / buses are exactly what the allocation spec holds; freed objects own nothing
 FreeLaws == \A h \in 1 .. Len(st.obj) :
     (st.obj[h].kind = "buf" /\ st.obj[h].alive) => [a |-> st.obj[h].id, n |-> st.obj[h].n] \in st.buf
